@@ -466,6 +466,23 @@ class NPShim:
     def clip(self, x, lo, hi):
         mode = self.it.config.get("clip", "transparent")
         if mode == "transparent":
+            # transparent only if the bounds do not cut values the clipped quantity really takes: probe its closed form on the sampling manifold
+            try:
+                lo_c, hi_c = float(unwrap(lo)) if lo is not None else None, float(unwrap(hi)) if hi is not None else None
+            except Exception:
+                lo_c = hi_c = None
+            cut = []
+
+            def probe(v):
+                if isinstance(v, Rat) and v.const() is None and (lo_c is not None or hi_c is not None):
+                    rg = P.range_probe(v)
+                    if rg is not None and ((lo_c is not None and rg[0] < lo_c - 1e-9) or (hi_c is not None and rg[1] > hi_c + 1e-9)):
+                        cut.append((v, rg))
+                return v
+            rat_map(probe, unwrap(x))
+            if cut:
+                self.it.assume("clip(x, %s, %s) cuts values x takes (sampled range %.3g..%.3g): kept as a clip" % (lo_c, hi_c, cut[0][1][0], cut[0][1][1]))
+                return rat_map(lambda v, a, b: P.fn("clip", v, a, b), unwrap(x), lo, hi)
             self.it.assume("clip(x, lo, hi) treated as x (value inside the clipping interval)")
             return to_obj(unwrap(x))
         return rat_map(lambda v, a, b: P.fn("clip", v, a, b), unwrap(x), lo, hi)
